@@ -1171,7 +1171,15 @@ class Exec:
 
     def expr_Set(self, e, st):
         acc, raises = self.eval_many(e.elts, st)
-        return [Out("val", PySet(vals), s) for vals, s in acc] + raises
+        res = []
+        for vals, s in acc:
+            if any(ty.is_z3(v) for v in vals) and all(ty.is_z3(v) or ty.is_num_const(v) for v in vals):
+                # a set display of symbolic numbers: the set of the listed values (its size is 1 iff they are all equal)
+                t = ty.Real if any((ty.is_z3(v) and z3.is_real(v)) or isinstance(v, Fraction) for v in vals) else ty.Int
+                res.extend(self.lib.b_set(self, s, [ty.seq_from_list(t, list(vals))], {}, e))
+            else:
+                res.append(Out("val", PySet(vals), s))
+        return res + raises
 
     def expr_Dict(self, e, st):
         if any(k is None for k in e.keys):
